@@ -69,6 +69,25 @@ theorem getPaths_complete {ups cores downs : List Seg} {g : DMG} {src dst : Nat}
   obtain ⟨c, hc, rfl⟩ := join_to_chain hall h
   exact getPaths_iff_chain.2 ⟨c, hc, rfl⟩
 
+/-- the hypothesis `NoCollision` holds for segments as beaconing produces them (`SegWF`: no AS twice
+in a segment, no zero IA, every peering interface announced once per AS entry) -/
+theorem noCollision_of_wf {ups cores downs : List Seg}
+    (hw : ∀ s ∈ ups ++ cores ++ downs, SegWF s) : NoCollision (allTuples ups cores downs) :=
+  Scion.Combinator.noCollision_of_wf hw
+
+/-- completeness for well-formed segment sets: the search finds every join of the specification
+(whose intermediate join points are not the destination vertex) -/
+theorem getPaths_complete_wf {ups cores downs : List Seg} {g : DMG} {src dst : Nat} {es : List Edge}
+    (hg : newDMG ups cores downs = some g) (hw : ∀ s ∈ ups ++ cores ++ downs, SegWF s)
+    (h : IsJoinStrict ups cores downs src dst es) : es ∈ getPaths g src dst :=
+  getPaths_complete hg (noCollision_of_wf hw) h
+
+/-- for well-formed segment sets the search finds exactly the strict joins -/
+theorem getPaths_iff_wf {ups cores downs : List Seg} {g : DMG} {src dst : Nat} {es : List Edge}
+    (hg : newDMG ups cores downs = some g) (hw : ∀ s ∈ ups ++ cores ++ downs, SegWF s) :
+    es ∈ getPaths g src dst ↔ IsJoinStrict ups cores downs src dst es :=
+  ⟨fun h => (getPaths_sound hg h).1, getPaths_complete_wf hg hw⟩
+
 /-- the search needs no more than four rounds of the queue loop -/
 theorem bfs_fuel {g : DMG} {src dst : Nat} (n : Nat) (es : List Edge) :
     es ∈ bfs g (vIA dst) (4 + n) [⟨[], vIA src, none⟩] ↔ es ∈ getPaths g src dst :=
